@@ -80,26 +80,21 @@ Proof.
 Qed.
 Print Assumptions C01_correct_unique.
 
-(** (c) glue [lexview (pp e) = ptoks e] is FALSE for the printer as it is: refuted inside the
-    kernel with the lexer model of Lexer.v (known findings core:prefix-pair:*, core:postfix-pair:!!,
-    core:ilike-any-escape).  The check evaluates the glue statement on every case instead. *)
+(** (c) glue [lexview (pp e) = ptoks e]: evaluated by the check on every case (not proved for all
+    trees).  It was FALSE for the printer before /repo commits f3b7421 and 0e41d8c (two adjacent
+    prefix operators, two postfix [!], ILIKE ANY .. ESCAPE); the former counter-examples, evaluated
+    inside the kernel with the lexer model of Lexer.v, now satisfy it. *)
 Definition x1 := EAtom false 1.
-Example C01_glue_minus_minus_refuted :
-  lexview dl_generic std_uni (pp optext_generic (EPre K_Minus (EPre K_Minus x1))) = Some []
-  /\ ptoks (EPre K_Minus (EPre K_Minus x1)) = [TOp K_Minus; TOp K_Minus; TAtom false 1].
-Proof. split; vm_compute; reflexivity. Qed.
-Example C01_glue_pg_at_at_refuted :
-  lexview dl_postgresql std_uni (pp optext_postgresql (EPre 88 (EPre 88 x1))) = Some [TOp 82; TAtom false 1].
+Definition glue ld ot e := lexview ld std_uni (pp ot e) = Some (ptoks e).
+Example C01_glue_minus_minus : glue dl_generic optext_generic (EPre K_Minus (EPre K_Minus x1)).
 Proof. vm_compute. reflexivity. Qed.
-Example C01_glue_postfix_pair_refuted :
-  lexview dl_generic std_uni (pp optext_generic (EPostfix (EPostfix x1))) = Some [TAtom false 1; TPre 87].
+Example C01_glue_pg_at_at : glue dl_postgresql optext_postgresql (EPre 88 (EPre 88 x1)).
 Proof. vm_compute. reflexivity. Qed.
-Example C01_glue_ilike_any_escape_refuted :
-  lexview dl_generic std_uni (pp optext_generic (ELike LILike false true x1 (EAtom false 2) (Some (true, 1))))
-  <> Some (ptoks (ELike LILike false true x1 (EAtom false 2) (Some (true, 1)))).
-Proof. vm_compute. discriminate. Qed.
-(** ... and holds on an ordinary instance *)
+Example C01_glue_postfix_pair : glue dl_generic optext_generic (EPostfix (EPostfix x1)).
+Proof. vm_compute. reflexivity. Qed.
+Example C01_glue_ilike_any_escape :
+  glue dl_generic optext_generic (ELike LILike false true x1 (EAtom false 2) (Some (true, 1))).
+Proof. vm_compute. reflexivity. Qed.
 Example C01_glue_instance :
-  lexview dl_generic std_uni (pp optext_generic (EBin K_Plus (EPre K_Minus x1) (ENot (EAtom true 2))))
-  = Some (ptoks (EBin K_Plus (EPre K_Minus x1) (ENot (EAtom true 2)))).
+  glue dl_generic optext_generic (EBin K_Plus (EPre K_Minus x1) (ENot (EAtom true 2))).
 Proof. vm_compute. reflexivity. Qed.
